@@ -451,7 +451,9 @@ func checkC20(rep *Report, c *WCase, periodic int) {
 		rep.Violate("panic", "", obs.Panic, c)
 		return
 	}
-	out := obs.Bytes(0)
+	lastD := len(obs.Dests) - 1
+	out := obs.Bytes(lastD)
+	n = len(written(datas, c.Ops)[lastD])
 	if len(out) > n+n/32+256 {
 		rep.Violate("expansion-bound", "", fmt.Sprintf("%d input bytes became %d output bytes (bound %d)", n, len(out), n+n/32+256), c)
 	}
